@@ -91,6 +91,11 @@ impl<T: Elem + SatisfyTraits<Tr>, M: MX, Tr: TrX + ?Sized> World<T, M, Tr> {
         let sz = size_of::<T>();
         let base = self.a.downcast_ref::<T>().unwrap().as_ptr() as usize;
         if base % T::ALIGN != 0 { out.fail(Class::Mem, misaligned_kind::<T, M>(), format!("storage pointer {base:#x} is not aligned to {} (len {len}, cap {cap})", T::ALIGN)); return; }
+        // inline (stack) storage lies inside the vector object: capacity x size bytes from the storage pointer must fit in it
+        if matches!(M::KIND, crate::caps::BK::Stack | crate::caps::BK::StackN) && sz != 0 {
+            let (lo, hi) = (&self.a as *const _ as usize, &self.a as *const _ as usize + size_of::<AnyVec<Tr, M>>());
+            if base < lo || base.saturating_add(cap.saturating_mul(sz)) > hi { out.fail(Class::Mem, "inline-storage-overrun", format!("capacity {cap} x {sz} bytes from the storage pointer does not fit inside the {}-byte vector object", hi - lo)); return; }
+        }
         let a = &mut self.a;
         match variant {
             0 | 1 => {
